@@ -892,3 +892,115 @@ macro_rules! r9_number_decode {
 }
 r9_number_decode!(r9_any_f32_decode, 124, 4, |m| m.read_f32().ok().map(|v| v as f64));
 r9_number_decode!(r9_any_f64_decode, 123, 8, |m| m.read_f64().ok());
+
+// ---------------------------------------------------------------------------------------------
+// R5 (type refs): every `TypeRef` variant, including weak links (yrs extension: a flags byte and
+// two sticky-index scopes), through `ItemContent::Type` + `Item::encode` vs the format.
+// ---------------------------------------------------------------------------------------------
+use yrs::types::weak::LinkSource;
+use yrs::types::TypeRef;
+
+macro_rules! r5_type_ref {
+    ($name:ident, $tr:expr, $kind:expr) => {
+        #[kani::proof]
+        #[kani::unwind(14)]
+        #[kani::stub(std::hash::RandomState::new, random_state_new)]
+        #[kani::stub(std::intrinsics::catch_unwind, catch_unwind_stub)]
+        fn $name() {
+            let shape = SHAPES[3];
+            let ids = any_ids(1);
+            let whole = build_item_k(shape, &ids, ItemContent::Type(yrs::branch::Branch::new($tr)));
+            let mut real = Recorder::new();
+            whole.encode(&mut real);
+            let mut model = Recorder::new();
+            model_encode_slice(&mut model, shape, &ids, 7, &ContentModel::Type($kind, None), 0, 0);
+            assert_same_events(&real, &model);
+            kani::cover!(true, "reach");
+            std::mem::forget(whole);
+        }
+    };
+}
+r5_type_ref!(r5_type_map, TypeRef::Map, 1);
+r5_type_ref!(r5_type_text, TypeRef::Text, 2);
+r5_type_ref!(r5_type_xml_fragment, TypeRef::XmlFragment, 4);
+r5_type_ref!(r5_type_xml_hook, TypeRef::XmlHook, 5);
+r5_type_ref!(r5_type_xml_text, TypeRef::XmlText, 6);
+r5_type_ref!(r5_type_subdoc, TypeRef::SubDoc, 9);
+r5_type_ref!(r5_type_undefined, TypeRef::Undefined, 15);
+
+/// Weak-link type refs: scope kinds concrete per instance (0 relative, 1 nested, 2 root), ids
+/// and associations symbolic. `same` = the end is the same relative id as the start (a link to a
+/// single element).
+fn r5_weak(start_kind: u8, end_kind: u8, same: bool) {
+    let a = any_id();
+    let b = if same { a } else { any_id() };
+    if !same {
+        kani::assume(a != b);
+    }
+    let sa: bool = kani::any();
+    let ea: bool = kani::any();
+    let mk = |kind: u8, id: ID| match kind {
+        0 => IndexScope::Relative(id),
+        1 => IndexScope::Nested(id),
+        _ => IndexScope::Root(Arc::from("r")),
+    };
+    let start = StickyIndex::new(mk(start_kind, a), if sa { Assoc::After } else { Assoc::Before });
+    let end = StickyIndex::new(mk(end_kind, b), if ea { Assoc::After } else { Assoc::Before });
+    let tr = TypeRef::WeakLink(Arc::new(LinkSource::new(start, end)));
+    let mut real: RecorderN<48> = RecorderN::new();
+    tr.encode(&mut real);
+    let mut model: RecorderN<48> = RecorderN::new();
+    let single = start_kind == 0 && end_kind == 0 && same;
+    let mut info = 0u8;
+    if !single {
+        info |= 0b0000_0001; // quote of several elements
+    }
+    if start_kind == 2 || end_kind == 2 {
+        info |= 0b0010_0000; // parent is a root type
+    }
+    if start_kind != 0 {
+        info |= 0b0000_1000; // start unbounded
+    }
+    if end_kind != 0 {
+        info |= 0b0001_0000; // end unbounded
+    }
+    if sa {
+        info |= 0b0000_0010;
+    }
+    if ea {
+        info |= 0b0000_0100;
+    }
+    model.write_type_ref(7);
+    model.write_u8(info);
+    if start_kind == 2 {
+        model.write_string("r");
+    } else {
+        model.write_var(a.client.get());
+        model.write_var(a.clock);
+    }
+    if end_kind == 2 {
+        model.write_string("r");
+    } else if !single {
+        model.write_var(b.client.get());
+        model.write_var(b.clock);
+    }
+    assert_same_events(&real, &model);
+    kani::cover!(sa && !ea, "mixed associations");
+    kani::cover!(true, "reach");
+    std::mem::forget(tr);
+}
+macro_rules! r5_weak_inst {
+    ($name:ident, $s:expr, $e:expr, $same:expr) => {
+        #[kani::proof]
+        #[kani::unwind(50)]
+        fn $name() {
+            r5_weak($s, $e, $same)
+        }
+    };
+}
+r5_weak_inst!(r5_weak_single, 0, 0, true);
+r5_weak_inst!(r5_weak_rel_rel, 0, 0, false);
+r5_weak_inst!(r5_weak_nested_rel, 1, 0, false);
+r5_weak_inst!(r5_weak_rel_nested, 0, 1, false);
+r5_weak_inst!(r5_weak_root_root, 2, 2, false);
+r5_weak_inst!(r5_weak_nested_nested, 1, 1, false);
